@@ -71,6 +71,8 @@ ReFloat(q, p) ==
 ReFn(q, p) == IF Ch(q, p) # -1 /\ IsFnFirst(Ch(q, p)) THEN Run(q, p + 1, "fn") ELSE -1
 
 StartsWith(q, p, w) == \A i \in 1..Len(w) : Ch(q, p + i - 1) = w[i]
+\* RE_TRUE / RE_FALSE / RE_NULL: the keyword, not followed by a function-name character or '(' (negative look-ahead)
+Keyword(q, p, w) == StartsWith(q, p, w) /\ LET c == Ch(q, p + Len(w)) IN ~(c # -1 /\ (IsFnRest(c) \/ c = 40))
 
 (* ---- Lexer methods -------------------------------------------------------- *)
 Emit(L, t)   == [L EXCEPT !.toks = Append(@, [t |-> t, s |-> L.start, e |-> L.pos]), !.start = L.pos]
@@ -210,9 +212,9 @@ LexFilter(q, L) ==
                              fn == ReFn(q, p)
                          IN  IF StartsWith(q, p, <<38, 38>>) THEN LexFilter(q, Emit(Adv(L2, 2), "AND"))
                              ELSE IF StartsWith(q, p, <<124, 124>>) THEN LexFilter(q, Emit(Adv(L2, 2), "OR"))
-                             ELSE IF StartsWith(q, p, <<116, 114, 117, 101>>) THEN LexFilter(q, Emit(Adv(L2, 4), "TRUE"))
-                             ELSE IF StartsWith(q, p, <<102, 97, 108, 115, 101>>) THEN LexFilter(q, Emit(Adv(L2, 5), "FALSE"))
-                             ELSE IF StartsWith(q, p, <<110, 117, 108, 108>>) THEN LexFilter(q, Emit(Adv(L2, 4), "NULL"))
+                             ELSE IF Keyword(q, p, <<116, 114, 117, 101>>) THEN LexFilter(q, Emit(Adv(L2, 4), "TRUE"))
+                             ELSE IF Keyword(q, p, <<102, 97, 108, 115, 101>>) THEN LexFilter(q, Emit(Adv(L2, 5), "FALSE"))
+                             ELSE IF Keyword(q, p, <<110, 117, 108, 108>>) THEN LexFilter(q, Emit(Adv(L2, 4), "NULL"))
                              ELSE IF fl # -1 THEN LexFilter(q, Emit([L2 EXCEPT !.pos = fl], "FLOAT"))
                              ELSE IF it # -1 THEN LexFilter(q, Emit([L2 EXCEPT !.pos = it], "INT"))
                              ELSE IF fn # -1 /\ Ch(q, fn) = 40 THEN
